@@ -74,6 +74,7 @@ pub fn op_list(n: usize, len: usize, thorough: bool) -> Vec<Op> {
     for k in 0..=2 * n + 1 {
         v.push(Op::Extend(k));
         v.push(Op::ExtendHinted(k, 1 + (k % 3) as u8));
+        v.push(Op::ExtendHinted(k, 4));
         if k == n + 1 || k == 2 * n + 1 || k == 1 {
             for h in 1..=3u8 {
                 v.push(Op::ExtendHinted(k, h));
